@@ -1,0 +1,92 @@
+//go:build verif
+
+package ogórek
+
+// Exports for the external verification harness (/verif). Compiled only with
+// `-tags verif`; adds no behaviour and changes no existing code.
+
+import (
+	"errors"
+	"hash/maphash"
+	"io"
+	"math/big"
+	"strconv"
+	"unsafe"
+)
+
+// VerifErrClass maps an error returned by Decode to a stable class name.
+func VerifErrClass(err error) string {
+	var oe OpcodeError
+	var ne *strconv.NumError
+	switch {
+	case err == nil:
+		return "nil"
+	case err == io.EOF:
+		return "eof"
+	case err == io.ErrUnexpectedEOF:
+		return "ueof"
+	case errors.As(err, &oe):
+		return "opcode:" + strconv.Itoa(int(oe.Key)) + ":" + strconv.Itoa(oe.Pos)
+	case err == ErrInvalidPickleVersion:
+		return "badversion"
+	case err == errStackUnderflow:
+		return "underflow"
+	case err == errNoMarker:
+		return "nomarker"
+	case err == errNoMarkUse:
+		return "markuse"
+	case err == strconv.ErrSyntax:
+		return "syntax"
+	case errors.As(err, &ne):
+		return "numerror"
+	case err == errNotImplemented:
+		return "notimplemented"
+	}
+	return "other"
+}
+
+// VerifEncErrClass maps an error returned by Encode to a stable class name.
+func VerifEncErrClass(err error) string {
+	var te *TypeError
+	switch {
+	case err == nil:
+		return "nil"
+	case errors.As(err, &te):
+		return "type:" + te.typ
+	case err == errP0UnicodeUTF8Only:
+		return "p0unicode"
+	case err == errP0PersIDStringLineOnly:
+		return "p0persid"
+	case err == errP0123GlobalStringLineOnly:
+		return "p0123global"
+	}
+	return "other"
+}
+
+func VerifEqual(a, b any) bool                    { return equal(a, b) }
+func VerifHash(seed maphash.Seed, x any) uint64   { return hash(seed, x) }
+func VerifPyquote(s string) string                { return pyquote(s) }
+func VerifPydecodeStringEscape(s string) (string, error) {
+	return pydecodeStringEscape(s)
+}
+func VerifPyencodeRawUnicodeEscape(s string) (string, error) {
+	return pyencodeRawUnicodeEscape(s)
+}
+func VerifPydecodeRawUnicodeEscape(s string) (string, error) {
+	return pydecodeRawUnicodeEscape(s)
+}
+func VerifDecodeLong(s string) (*big.Int, error) { return decodeLong(s) }
+
+// VerifUnicode wraps s into the unexported type that always encodes as unicode.
+func VerifUnicode(s string) any { return unicode(s) }
+
+// VerifIsUnicode reports whether x is of the unexported unicode type.
+func VerifIsUnicode(x any) (string, bool) { u, ok := x.(unicode); return string(u), ok }
+
+// VerifDictID returns the identity of the table behind d (0 for the nil Dict).
+func VerifDictID(d Dict) uintptr { return uintptr(unsafe.Pointer(d.m)) }
+
+// VerifState exposes the decoder's bookkeeping (used in replays only).
+func (d *Decoder) VerifState() (stackDepth, memoSize, protocol int) {
+	return len(d.stack), len(d.memo), d.protocol
+}
